@@ -15,7 +15,7 @@ import numpy as np
 from common import Ctx, Finding, Outcome, err_class
 
 PROPERTY = "C13"
-LEAN_TARGETS = ["QcelVerif.Props.C13", "QcelVerif.Driver.C13"]
+LEAN_TARGETS = ["QcelVerif.Props.C13", "QcelVerif.Lemmas.MillCalculus", "QcelVerif.Props.C13Calculus", "QcelVerif.Driver.C13"]
 DRIVER = "QcelVerif/Driver/C13.lean"
 THEOREMS = [
     ("QcelVerif.Mill.blockwise_roundtrip", "blockwise_contract (blockwise_expand a) = a for every 2-D array and every dividing block shape"),
@@ -37,12 +37,30 @@ THEOREMS = [
     ("QcelVerif.Mill.field_is_derivative", "mu(x + t e) = mu(x) + t (fieldD x) e + t^2 (...) + t^3 (...): fieldD is the formal derivative of the polynomial pair vector field"),
     ("QcelVerif.Mill.hessian_mirror_counterexample", "test by kernel evaluation: align_hessian as it was before fix 2038e22 (mirror ignored) does NOT preserve the Hessian form on a mirrored recipe"),
     ("QcelVerif.Mill.field_covariance", "polynomial pair vector field: mu_{w'}(align x) = align_vector(mu_w(x)) and d mu_{w'}(align x) = align_vector_gradient(d mu_w(x)), mirror off"),
+    # --- the calculus bridge over the reals (Props/C13Calculus.lean; Mathlib Frechet derivative; same model definitions at K = R) ---
+    ("QcelVerif.Mill.coords_hasFDerivAt", "over R: align_coordinates x = J x + b with J a continuous linear map, so its Frechet derivative at every x is J (any recipe)"),
+    ("QcelVerif.Mill.J_inner_preserved", "over R: R R^T = I, atommap bijective -> <J d, J e> = <d, e> for the standard inner product of (n,3) arrays"),
+    ("QcelVerif.Mill.J_bijective", "over R: R R^T = I, atommap bijective -> J is a linear isomorphism and align_coordinates an affine isomorphism with a two-sided inverse (alignInv)"),
+    ("QcelVerif.Mill.gradient_covariance", "ANY E, E' with E'(align y) = E(y) for y near x and E' differentiable at align x (R R^T = I, atommap injective, mirror on/off): array of dE'(align x) = align_gradient(array of dE(x)), entries = fderiv applied to unit vectors"),
+    ("QcelVerif.Mill.hessian_covariance", "ANY E, E' with E'(align y) = E(y) near x and E' twice differentiable at align x: (3n,3n) array of second Frechet derivatives of E' at align x = align_hessian(that of E at x), mirror on and off, no symmetry assumed"),
+    ("QcelVerif.Mill.hessian_covariance_of_contDiffAt", "the same with the hypothesis 'E' is C^2 at the aligned geometry'"),
+    ("QcelVerif.Mill.aligned_contDiffAt_of_invariant", "atommap bijective: E is C^k at x and E'(align y) = E(y) near x -> E' is C^k at align x (smoothness transfers through the affine isomorphism)"),
+    ("QcelVerif.Mill.covariance_of_contDiffAt_original", "both clauses with smoothness assumed of the original energy only: E is C^2 at x and invariant near x -> gradient and Hessian arrays of E' at align x are align_gradient / align_hessian of those of E at x"),
+    ("QcelVerif.Mill.distance_energy_invariant", "every function psi of the matrix of squared interatomic distances satisfies the invariance hypothesis: psi(D(align y)) = psi(D(y) o map) (rotation, translation, reflection, relabelling)"),
+    ("QcelVerif.Mill.distance_energy_covariance", "gradient and Hessian covariance for every C^2 function of the interatomic distances, no invariance hypothesis left"),
+    ("QcelVerif.Mill.pairEnergy_invariant", "pair potentials sum_{i!=j} f_ij(|x_i-x_j|^2) with arbitrary pair functions f_ij (relabelled f'_ij = f_{map i, map j}) are invariant under every recipe"),
+    ("QcelVerif.Mill.pair_potential_covariance", "gradient and Hessian covariance for every pair potential whose pair functions are C^2 at the squared distances occurring in x (non-polynomial included)"),
+    ("QcelVerif.Mill.coulomb_harmonic_covariance", "Coulomb + harmonic energy sum_{i!=j} k_ij/|r_ij| + h_ij(|r_ij|-rho_ij)^2, arbitrary couplings, at every geometry without coincident atoms: gradient and Hessian at align x = align_gradient / align_hessian of those at x, mirror on and off"),
+    ("QcelVerif.Mill.vector_gradient_covariance", "mirror off: ANY vector fields with mu'(align y) = align_vector(mu(y)) near x and mu' differentiable at align x: (3,3n) array of d mu'(align x) = align_vector_gradient(array of d mu(x))"),
+    ("QcelVerif.Mill.grad_energy_eq_gradE", "the Frechet gradient array of the polynomial pair energy (symmetric couplings) over R IS the explicit gradE of Props/C13 (ties grad to an explicit formula)"),
+    ("QcelVerif.Mill.hess_energy_eq_hessE", "the Frechet Hessian array of the polynomial pair energy (symmetric couplings) over R IS the explicit hessE of Props/C13"),
 ]
 TRUSTED_BASE = [
     "Lean 4.33 kernel; axioms per theorem audited on every run (subset of propext, Classical.choice, Quot.sound); Mathlib for Finset sums / ring / linear_combination",
     "hand-written model Model/Mill.lean of align.py:70-151 and np_blockwise.py (index-level semantics of numpy dot, fancy indexing, np.ix_, strided view, reshape/swapaxes), tied by differential correspondence",
     "numpy elementwise IEEE arithmetic (implementation float output compared with the exact rational model output at 1e-11 * scale; exactly for dyadic recipes)",
-    "the calculus step from 'J orthogonal + pairing/bilinear form preserved' to covariance for every invariant energy is textbook and not formalised; it is formalised for the polynomial pair energies and checked numerically for Coulomb/harmonic energies",
+    "Mathlib's real analysis (Frechet derivative HasFDerivAt/fderiv, chain rule, ContDiffAt, Real.sqrt) for Props/C13Calculus.lean: the step from the algebra to 'gradient/Hessian covariance for EVERY invariant energy' is now PROVED over R (gradient_covariance, hessian_covariance, vector_gradient_covariance) and is no longer in the trusted base; what 'gradient' and 'Hessian' mean there is fixed by the definitions grad/hess/vecGrad (fderiv applied to the unit vectors e_(i,a), rows 3i+a) in Lemmas/MillCalculus.lean, which are tied to explicit formulas for the polynomial family (grad_energy_eq_gradE, hess_energy_eq_hessE)",
+    "reading of 'invariant energy' (stated in Props/C13Calculus.lean): the aligned, relabelled system has its own energy E' (per-atom parameters permuted by the atom map) with E'(align y) = E(y) near x; proved to hold for every function of the interatomic distances and every pair potential (Coulomb, harmonic), an assumption for other energies; the theorems are over the real numbers whereas the implementation computes in IEEE doubles (numerical agreement is the oracle's job, not the theorems')",
     "harness/c13.py generators and the numpy oracle (analytic first/second derivatives of pair potentials, validated against finite differences during development)",
 ]
 ASSUMPTIONS = [
@@ -62,10 +80,14 @@ RULE = (
 LEVEL_TEXT = (
     "proof: all algebraic clauses (affine map, J orthogonal action, pairing and Hessian bilinear form preserved, blocking lossless, same atom map, "
     "vector/vector-gradient chain rule, and full gradient/Hessian covariance for the polynomial pair energies with their derivatives formally tied) hold for "
-    "every n and every recipe over any commutative ring; partial: the step to *every* invariant energy is textbook calculus (trusted), and the model is tied "
-    "to the code by sampling."
+    "every n and every recipe over any commutative ring; and over the reals, with Mathlib's Frechet derivative and about the same model definitions, the "
+    "calculus bridge is proved: for EVERY energy pair with E'(align y) = E(y) near x that is (twice) differentiable, the gradient / Hessian arrays at the aligned "
+    "geometry equal align_gradient / align_hessian of those at x (mirror on and off), likewise the nuclear derivatives of every equivariant vector field (mirror off); "
+    "specialised, with the invariance hypothesis discharged, to all C^2 functions of the interatomic distances, all pair potentials with C^2 pair functions and "
+    "(no analytic hypothesis left) the Coulomb + harmonic energies at non-coincident geometries. partial: the model is tied to the code by sampling (differential correspondence), and the theorems speak about exact real "
+    "arithmetic, not about floating-point rounding."
 )
-TECHNIQUE = "Lean 4 proof over a generic commutative ring of a core-Lean model + exact-rational differential correspondence + analytic-energy oracle"
+TECHNIQUE = "Lean 4 proof over a generic commutative ring of a core-Lean model + Lean 4/Mathlib proof over the reals (Frechet derivative) of the covariance of every invariant energy + exact-rational differential correspondence + analytic-energy oracle"
 
 TOL = 1e-11  # model (exact) vs implementation (float), times the scale of the operands
 OTOL = 2e-9  # oracle: float analytic derivatives on both sides, times (1 + max|reference|)
